@@ -32,8 +32,8 @@ ASSUMPTIONS = [
     "cds_children is compared as a set (the accessor documents insertion order)",
 ]
 BOUNDS = {
-    "quick": "part A: 6 slots, <= 3 areas, line and ring; part B: depth 6 on a linear and a circular record",
-    "thorough": "part A: 6 slots <= 4 areas (reduced menu), 7 slots <= 3; part B: depth 8",
+    "quick": "part A: 6 slots, <= 3 areas, on the line, <= 4 areas on the ring; part B: depth 6 on a linear and a circular record",
+    "thorough": "part A: 6 slots <= 4 areas (full menu) line and ring, 7 slots <= 4 ring, 8 slots <= 3 line and ring; part B: depth 8",
 }
 REQUIRED_BUCKETS = {t: ["areas:two-regions", "areas:chained", "areas:meet-across-origin", "areas:whole-record", "bfs:states-with-regions",
                         "bfs:clear-after-create", "bfs:gene-added-after-regions"] for t in ("quick", "thorough")}
@@ -43,6 +43,10 @@ N_CHUNKS = 16
 # ------------------------------------------------------------------ part A
 
 def area_menu(nslots, circular, reduced=False):
+    if reduced == "tight":
+        # protoclusters only, cores = gene spans: neighbouring areas are separated by small gaps instead of touching
+        return [["P"] + spec + ["t"] for spec in P.protocluster_menu(nslots, circular, max_core=2, products=("p",),
+                                                                    neighbourhoods=((0, 0), (1, 1)))]
     subs = []
     for first in range(nslots):
         for width in range(1, 4 if not reduced else 3):
@@ -489,11 +493,14 @@ def _valid(circular, hist):
 
 def shards(tier):
     out = []
-    plans = [(6, False, 3, False), (6, True, 3, False)]
+    # "reduced" (every second protocluster of the menu, only sets of exactly k) is a quick-tier economy; the thorough tier
+    # enumerates every set of <= 4 areas of the full menu (4-area sets are where a sweep can miss an overlap, see DESIGN 0.3)
+    plans = [(6, False, 3, False), (6, True, 4, False), (6, True, 4, "tight")]
     if tier == "thorough":
-        plans += [(6, False, 4, True), (6, True, 4, True), (7, True, 3, False)]
+        plans = [(6, False, 4, False), (6, True, 4, False), (7, True, 4, False), (8, True, 3, False), (8, False, 3, False),
+                 (6, True, 4, "tight"), (6, False, 4, "tight"), (7, True, 4, "tight")]
     for nslots, circ, k, reduced in plans:
-        for chunk in range(N_CHUNKS):
+        for chunk in range(N_CHUNKS * (4 if k == 4 and not reduced else 1)):
             out.append(["areas", nslots, circ, k, reduced, chunk])
     for circ in (False, True):
         for chunk in range(N_CHUNKS):
@@ -511,10 +518,10 @@ def run_shard(shard):
         L = nslots * P.SLOT
         menu = area_menu(nslots, circ, reduced)
         index = 0
-        for size in (range(1, k + 1) if not reduced else (k,)):
+        for size in (range(1, k + 1) if reduced is not True else (k,)):
             for combo in itertools.combinations(menu, size):
                 index += 1
-                if index % N_CHUNKS != chunk:
+                if index % (N_CHUNKS * (4 if k == 4 and not reduced else 1)) != chunk:
                     continue
                 rec, objs = build_areas(nslots, circ, list(combo))
                 if rec is None:
